@@ -237,7 +237,11 @@ class DistinctCountCheck(AbstractCheck):
         fields.field_name_index(self._field_name_to_count, available_field_names, location)
         line_where_field_name_ends, column_where_field_name_ends = first_token[3]
         assert column_where_field_name_ends > 0
-        assert line_where_field_name_ends == 1
+        if line_where_field_name_ends != 1:
+            # For example a rule starting with a backslash and a line feed.
+            raise errors.InterfaceError(
+                "field name %r must be in the first line of the rule" % self._field_name_to_count, self.location_of_rule
+            )
 
         # Build and test Python expression for validation.
         self._expression = DistinctCountCheck._COUNT_NAME + rule[column_where_field_name_ends:]
